@@ -7,7 +7,8 @@ pub struct LeafSpec {
     pub script: Vec<Step>,
     pub always: bool,
     /// streams: report an honest, exact `size_hint` (the default is `(0, None)`)
-    /// 0 = none, 1 = exact, 2 = honest but inexact: (about half, Some(a few more))
+    /// 0 = none, 1 = exact, 2 = honest but inexact: (about half, Some(a few more)),
+    /// 3 = honest with a useless upper bound: (about half, Some(usize::MAX))
     pub hint: u8,
     /// the child invokes the waker of its most recent poll from its destructor
     pub dropwake: bool,
@@ -73,6 +74,9 @@ pub struct Case {
     /// (it lives in the frame being unwound, as in `comb.await` inside an async
     /// block) instead of after the panic was caught
     pub unwind_drop: bool,
+    /// the caller catches a panic of a child's poll and goes on polling the
+    /// same combinator (only ownership is judged from then on)
+    pub repoll_after_panic: bool,
 }
 
 impl CombSpec {
@@ -144,7 +148,7 @@ impl CombSpec {
                         i = j;
                     }
                     let s = rle;
-                    format!("<{}{}{}>", s.join(" "), if l.always { " always" } else { "" }, match l.hint { 1 => " exact-size_hint", 2 => " inexact-size_hint", _ => "" }) + if l.dropwake { "+wake-on-drop" } else { "" }
+                    format!("<{}{}{}>", s.join(" "), if l.always { " always" } else { "" }, match l.hint { 1 => " exact-size_hint", 2 => " inexact-size_hint", 3 => " size_hint-with-huge-upper-bound", _ => "" }) + if l.dropwake { "+wake-on-drop" } else { "" }
                 }
                 ChildSpec::Inner(i) => i.show(),
             })
@@ -190,6 +194,6 @@ impl Case {
             acts.join(" "),
             if self.no_drain { " (no drain)" } else { " then fair drain" },
             if self.fair_polls > 0 { format!(" fair_polls={}", self.fair_polls) } else { String::new() }
-        ) + if self.storm { " [storm: wakers fired concurrently from helper threads]" } else { "" } + if self.unwind_drop { " [a panic unwinds through the owner of the combinator]" } else { "" } + &(if self.post_polls > 0 { format!(" then {} poll(s) after the final result", self.post_polls) } else { String::new() })
+        ) + if self.storm { " [storm: wakers fired concurrently from helper threads]" } else { "" } + if self.unwind_drop { " [a panic unwinds through the owner of the combinator]" } else if self.repoll_after_panic { " [the caller catches a panic and polls on]" } else { "" } + &(if self.post_polls > 0 { format!(" then {} poll(s) after the final result", self.post_polls) } else { String::new() })
     }
 }
